@@ -26,6 +26,9 @@ type c10Params struct {
 	// Keys: the client-side stop is typed — Ctrl-C (the product pauses the transfer and opens its menu), the
 	// answer 300 ms later — instead of calling StopTransferringFiles
 	Keys bool `json:"keys,omitempty"`
+	// AfterContinue: over a link with latency the user presses Ctrl-C, leaves the menu open for 3 s, chooses
+	// "continue", and stops for good a little later (a list of moments): the second stop must be as prompt as any
+	AfterContinue bool `json:"after_continue,omitempty"`
 }
 
 // completedFiles counts the MD5 acknowledgements the receiver sent: 16-byte digests in #SUCC: lines.
@@ -74,6 +77,14 @@ func c10Oracle(w *world, r *worldResult) (violation, outcome string) {
 		return "the client never left the transfer after the stop: alive " + strings.Join(leakedWorkers(r.Alive), " "), "client-hang"
 	}
 	// promptness: both sides return within cleanTimeout of the stopping side + 2 s (the peer's two drains)
+	if r.StopHit && w.p.LatencyMs > 0 && r.Sched.Stall == 0 {
+		// the quiet-wait the stopping side grants its peer is derived from how long recent chunks took; over this link
+		// a chunk takes about one round trip, whatever the user did in a menu before
+		lat := time.Duration(w.p.LatencyMs) * time.Millisecond
+		if ref := 2*(2*lat) + 400*time.Millisecond; r.StopCleanTimeout > ref && r.StopCleanTimeout > 500*time.Millisecond {
+			return fmt.Sprintf("the stopping side waits %v for its peer to fall quiet although a chunk takes about %v over this link (time spent in the stop/continue menu was counted as chunk time)", r.StopCleanTimeout, 2*lat), outcome
+		}
+	}
 	if r.StopHit {
 		bound := r.StopCleanTimeout + 2*time.Second + r.Sched.Stall
 		if d := r.SrvDoneAt - r.StopAt; d > bound {
@@ -239,6 +250,28 @@ func c10Run(j vs.Job) *vs.JobResult {
 		}
 		return r
 	}
+	if p.AfterContinue {
+		for _, first := range []int{1500, 2500, 3500} {
+			for _, later := range []int{200, 500, 900, 1500, 2500} {
+				wp := p.W
+				wp.Stop = &wStop{Side: "client", Via: "keys", AtMs: first, ChoiceMs: 3000, Continue: true}
+				wp.Stops = []wStop{{Side: "client", Delete: p.Delete, AtMs: first + 3000 + 60 + later}}
+				w, res := runWorld(wp, vs.Config{Trace: j.Replay != nil}, nil, nil, nil)
+				v, o := c10Oracle(w, res)
+				r.Execs++
+				r.Nontrivial++
+				r.Outcomes[o]++
+				if res.StopHit {
+					r.Max("clean_timeout_after_continue_ms_max", float64(res.StopCleanTimeout.Milliseconds()))
+				}
+				if v != "" {
+					r.Violate("c10:after-continue:"+firstWords(v, 9), wp.String()+": "+v, wp)
+					return r
+				}
+			}
+		}
+		return r
+	}
 	w0, res0 := runWorld(p.W, vs.Config{}, nil, nil, nil)
 	if v := c01Oracle(w0, res0, true); v != "" && p.W.DstPre == "" {
 		r.ToolErr = "the reference run without a stop is not clean: " + v
@@ -307,7 +340,7 @@ func init() {
 		ID:    "C10",
 		Level: "model_checking",
 		Rule: "the stop (client keep / client delete / server SIGINT) is delivered atomically just before every scheduler step of the default schedule of a transfer (every moment between two synchronisation or I/O operations of any goroutine on either side), " +
-			"for every scenario = direction x tree (3-chunk file, files, directory as entries, directory as archive) x destination (empty / pre-populated incl. a file -y is replacing) x protocol; thorough: x every single schedule deviation after the stop",
+			"for every scenario = direction x tree (3-chunk file, files, directory as entries, directory as archive) x destination (empty / pre-populated incl. a file -y is replacing) x protocol; an upload over a 300 ms link with Ctrl-C, 3 s in the menu, continue, and a stop 0.2..2.5 s later (the quiet-wait must not grow with the time spent in the menu); thorough: x every single schedule deviation after the stop",
 		Assumptions: []string{"stop on the client = the exported StopTransferringFiles, and, in the 'keys' jobs, a typed Ctrl-C answered 300 ms later through the product's own menu handler (the menu library itself is a model: rule R14); stop on the server = stopTransferringFiles(false) (the signal handler's body)",
 			"the bound asserted is cleanTimeout of the stopping side (read from its transfer) + 2 s; maxima observed are reported", "completed files = files whose MD5 the receiver acknowledged on the wire before the end"},
 		TraceNote:   "explored directly on the implementation; the number counts executions replayed from recorded choice lists (determinism guard and 5x violation replays)",
@@ -356,6 +389,9 @@ func init() {
 						jobs = append(jobs, vs.MkJob(fmt.Sprintf("keys %s side=%s delete=%v %d/%d", s.w.String(), s.side, s.delete, k, n), c10Params{W: s.w, Side: s.side, Delete: s.delete, Shard: k, NShards: n, Keys: true}))
 					}
 				}
+			}
+			for _, del := range []bool{false, true} {
+				jobs = append(jobs, vs.MkJob(fmt.Sprintf("stop after continue delete=%v", del), c10Params{W: wParams{Dir: "up", Tree: "one:R:200000", Bufsize: 10240, LatencyMs: 300, Timeout: 5}, Side: "client", Delete: del, AfterContinue: true, NShards: 1}))
 			}
 			if tier == "thorough" {
 				for _, s := range scs[:7] {
